@@ -258,6 +258,44 @@ func TVFromDenotation(n *Node, d string) *sdcpb.TypedValue {
 	return scalarTV(nodeScalarType(n), d)
 }
 
+// StoredTVFromDenotation renders d the way the sync of a device report stores it: as TVFromDenotation, but a union
+// value takes the representation of the first member type it fits (what the device-side converters produce).
+func StoredTVFromDenotation(n *Node, d string) *sdcpb.TypedValue {
+	st := nodeScalarType(n)
+	if st.Type != "union" || n.Kind == KContainer {
+		return TVFromDenotation(n, d)
+	}
+	if n.Kind == KLeafList {
+		var elems []*sdcpb.TypedValue
+		for _, e := range ParseLL(d) {
+			elems = append(elems, unionStoredTV(st, e))
+		}
+		return &sdcpb.TypedValue{Value: &sdcpb.TypedValue_LeaflistVal{LeaflistVal: &sdcpb.ScalarArray{Element: elems}}}
+	}
+	return unionStoredTV(st, d)
+}
+
+func unionStoredTV(st scalarType, d string) *sdcpb.TypedValue {
+	for _, m := range st.UnionTypes {
+		if b, ok := intBounds[m]; ok {
+			v, okv := new(big.Int).SetString(d, 10)
+			lo, _ := new(big.Int).SetString(b[0], 10)
+			hi, _ := new(big.Int).SetString(b[1], 10)
+			if okv && v.Cmp(lo) >= 0 && v.Cmp(hi) <= 0 && (d == "0" || !strings.HasPrefix(strings.TrimPrefix(d, "-"), "0")) {
+				return scalarTV(scalarType{Type: m}, d)
+			}
+			continue
+		}
+		if m == "boolean" && (d == "true" || d == "false") {
+			return scalarTV(scalarType{Type: m}, d)
+		}
+		if m == "enumeration" || m == "string" {
+			break
+		}
+	}
+	return &sdcpb.TypedValue{Value: &sdcpb.TypedValue_StringVal{StringVal: d}}
+}
+
 // StringTVFromDenotation renders d as a string-valued typed value (the
 // "string" input form); leaf-lists become a leaf-list of string elements.
 func StringTVFromDenotation(n *Node, d string) *sdcpb.TypedValue {
